@@ -1,0 +1,47 @@
+//go:build verif
+
+package protocol
+
+// Accessors for the /verif harness (build tag `verif` only): the unexported pageBuffer driven directly, so that
+// sequences of Write / WriteAt / ReadAt / scan / Truncate / ref operations can be compared with the Lean model.
+
+// VerifPageBuffer wraps a pageBuffer taken from the pool.
+type VerifPageBuffer struct{ pb *pageBuffer }
+
+func VerifNewPageBuffer() *VerifPageBuffer { return &VerifPageBuffer{pb: newPageBuffer()} }
+
+func (v *VerifPageBuffer) Write(b []byte) { v.pb.Write(b) }
+
+func (v *VerifPageBuffer) WriteAt(b []byte, off int64) { v.pb.WriteAt(b, off) }
+
+func (v *VerifPageBuffer) ReadAt(n int, off int64) []byte {
+	b := make([]byte, n)
+	k, _ := v.pb.ReadAt(b, off)
+	return b[:k]
+}
+
+// Scan returns the concatenation of the chunks contiguousPages.scan hands out for [begin, end).
+func (v *VerifPageBuffer) Scan(begin, end int64) []byte {
+	var out []byte
+	v.pb.pages.scan(begin, end, func(chunk []byte) bool {
+		out = append(out, chunk...)
+		return true
+	})
+	return out
+}
+
+func (v *VerifPageBuffer) Truncate(n int) { v.pb.Truncate(n) }
+
+func (v *VerifPageBuffer) Size() int64 { return v.pb.Size() }
+
+// Ref returns the Bytes value (a *pageRef) for [begin, end).
+func (v *VerifPageBuffer) Ref(begin, end int64) Bytes { return v.pb.ref(begin, end) }
+
+func (v *VerifPageBuffer) Unref() { v.pb.unref() }
+
+// VerifRefReadAt reads n bytes at offset off of a Bytes value created by Ref.
+func VerifRefReadAt(b Bytes, n int, off int64) []byte {
+	buf := make([]byte, n)
+	k, _ := b.(*pageRef).ReadAt(buf, off)
+	return buf[:k]
+}
